@@ -174,7 +174,7 @@ def tx_model_and_scenarios(ck, tier):
         sink = os.path.join(ck.dir, f"scen_{label}.ndjson")
         write_cfg(cfg, "tx", senders=senders, sizes=sizes, earlies=earlies, closes=closes,
                   invariants=["TypeOK", "NonceUnique", "EpochProtected", "RecordLimit", "Carried", "EmitScen"],
-                  constraint=None if explore else "ScenOnly")
+                  constraint="ScenOnly")   # emission runs are single-worker: scenarios only, no exploration
         res = vlib.tlc("MC_DtlsRecord", os.path.basename(cfg), tags=("SCEN",), sinks={"SCEN": sink},
                        timeout=2400 if tier == "thorough" else 900, heap="6g", tag=f"C03tx{label}")
         rm(cfg)
